@@ -247,11 +247,15 @@ def dada_reducer(wire_array_2, result_bitwidth, final_adder=kogge_stone):
 
 
 def _sparse_adder(wire_array_2, adder):
+    while wire_array_2 and len(wire_array_2[-1]) == 0:
+        wire_array_2 = wire_array_2[:-1]  # high columns that no wire reached
     result = []
     for single_w_index in range(len(wire_array_2)):
         if len(wire_array_2[single_w_index]) == 2:  # Check if the two wire vectors overlap yet
             break
         result.append(wire_array_2[single_w_index][0])
+    else:
+        return pyrtl.concat_list(result)  # no column holds two wires: nothing left to add
 
     wires_to_zip = wire_array_2[single_w_index:]
     add_wires = tuple(itertools.zip_longest(*wires_to_zip, fillvalue=pyrtl.Const(0)))
